@@ -2,3 +2,5 @@ import Liftbridge.Base
 import Liftbridge.Cmp
 import Liftbridge.Model.Envelope
 import Liftbridge.Model.Log
+import Liftbridge.Model.Retention
+import Liftbridge.Model.Compact
